@@ -129,9 +129,9 @@ def expect_worm(a, b, f, exact_threshold=False):
     if eta < 1e-12 or eta > 1 - 1e-12 or isinstance(f, bool):
         return ('either', None)
     if exact_threshold:
-        # f was computed by the caller as worm.pressure_angle.cos() * worm.helix_angle.tan(): exactly ON the threshold, and the
-        # documented condition f > cos(alpha) tan(beta) is strict
-        return ('accept', {'ratio': r, 'eff': eta, 'worm': wg, 'self_locking': False})
+        # f was computed by the caller from worm.pressure_angle.cos() * worm.helix_angle.tan(): exactly ON the threshold (the
+        # documented condition f > cos(alpha) tan(beta) is strict) or 8e-15 relative above / below it
+        return ('accept', {'ratio': r, 'eff': eta, 'worm': wg, 'self_locking': exact_threshold == 'above'})
     crit = math.cos(q_si(wg.pressure_angle)) * math.tan(q_si(wg.helix_angle))
     margin = abs(f - crit) / max(abs(f), abs(crit), 1e-300)
     return ('accept', {'ratio': r, 'eff': eta, 'worm': wg, 'self_locking': (f > crit) if margin > 1e-9 else None})
@@ -203,10 +203,12 @@ def do_call(rng, pool, extra_objects=()):
                 c.param = rng.choice([crit, math.nextafter(crit, 2), math.nextafter(crit, -1)]) if 0 < crit < 1 else c.param
             exact_ = False
             wg_ = c.a if isinstance(c.a, mo.WormGear) else (c.b if isinstance(c.b, mo.WormGear) else None)
-            if wg_ is not None and rng.random() < 0.08:
+            if wg_ is not None and rng.random() < 0.12:
                 lc_ = wg_.pressure_angle.cos() * wg_.helix_angle.tan()
-                if 0 < lc_ < 1:
-                    c.param, exact_ = lc_, True
+                if 0 < lc_ < 0.999:
+                    # exactly on the threshold (strict condition: not self-locking), or a few tens of ulps off it on either side
+                    # (far beyond any evaluation-order noise of cos*tan, far inside any "tolerance" a comparison might apply)
+                    c.param, exact_ = rng.choice([(lc_, True), (lc_ * (1 + 8e-15), 'above'), (lc_ * (1 - 8e-15), 'below')])
             c.expect = expect_worm(c.a, c.b, c.param, exact_threshold=exact_)
             ut.add_worm_gear_mating(master=c.a, slave=c.b, friction_coefficient=c.param)
         else:
